@@ -219,7 +219,27 @@ func (l *vlab) sendUDP(payload []byte) (r vlabResult) {
 func (l *vlab) sendStream(c net.Conn, payload []byte) (r vlabResult) {
 	msg := binary.BigEndian.AppendUint16(nil, uint16(len(payload)))
 	msg = append(msg, payload...)
-	if _, err := c.Write(msg); err != nil {
+	// A stream carries bytes, not messages: the segment (TLS record) boundaries fall anywhere, also
+	// between the two octets of the length prefix (RFC 7766, 8).  Which cut is used depends on the
+	// message only, so that a warm and a fresh instance see the same sequence of writes.
+	cut := 0
+	if h := len(payload)*31 + int(msg[len(msg)-1]); len(msg) > 3 {
+		switch h % 4 {
+		case 0:
+			cut = 1
+		case 1:
+			cut = 2
+		case 2:
+			cut = 3 + h%(len(msg)-3)
+		}
+	}
+	if cut > 0 {
+		if _, err := c.Write(msg[:cut]); err != nil {
+			return vlabResult{Note: "err:" + err.Error()}
+		}
+		time.Sleep(3 * time.Millisecond)
+	}
+	if _, err := c.Write(msg[cut:]); err != nil {
 		return vlabResult{Note: "err:" + err.Error()}
 	}
 	wait := 4 * l.Wait
